@@ -1506,8 +1506,10 @@ func (l *lexer) scanCmdSubst(r rune) bool {
 		left := l.pos
 		// nest
 		ll := &lexer{
+			env:      l.env,
 			name:     l.name,
 			r:        l.r,
+			aliases:  l.aliases,
 			cmdSubst: r,
 			token:    make(chan ast.Node),
 			done:     make(chan struct{}),
@@ -1515,6 +1517,7 @@ func (l *lexer) scanCmdSubst(r rune) bool {
 			heredoc:  heredoc{c: make(chan struct{}, 1)},
 			line:     l.line,
 			col:      l.col,
+			pos:      l.pos,
 		}
 		ll.heredoc.cancel = ll.cancel
 		ll.mark(off)
@@ -1546,7 +1549,12 @@ func (l *lexer) scanCmdSubst(r rune) bool {
 			l.mu.Unlock()
 			break
 		}
+		if len(ll.cmds) == 0 {
+			l.error(left, "syntax error: unexpected EOF")
+			break
+		}
 		// apply changes
+		l.aliases = ll.aliases
 		l.comments = append(l.comments, ll.comments...)
 		l.line = ll.line
 		l.col = ll.col
